@@ -9,7 +9,7 @@ pub fn def() -> PropDef {
         builds: BOTH,
         rule: "every text over {L,SP,HY,W,NL,CM,TAB,NB,ZW,OP,CL,CSI,CR} up to length N x separators x algorithms x none/hyphen x break_words x widths 0..=display width+2, MAX, empty indents; fill(fill(t)) == fill(t) under the statement's preconditions (Unicode separator: no reference fragment wider than the width when break_words is on; optimal-fit: additionally no overflowing line in the first result); non-trivial = the first fill has >= 2 lines and the precondition holds",
         assumptions: BASE_ASSUMPTIONS,
-        floor: |t| t.pick(100_000, 1_000_000),
+        floor: |t| t.pick(100_000, 300_000),
         run,
     }
 }
